@@ -35,6 +35,8 @@ TsCore == {TsAbsent, Ts(1, 1), Ts(1, 2), Ts(2, 0), Ts(1, 3)}
 WindowCore == [start : TsCore, limit : TsCore]
 \* in the triples: absent, two instants inside one second, an invalid timestamp
 WindowSlim == [start : TsCore \ {Ts(2, 0)}, limit : TsCore \ {Ts(2, 0)}]
+\* every named spelling of "the frozen STH does not verify" with every state of the keys and the log kind, over every base
+FrozenSweepGroup == [pubKey : PubKeyStates, privKey : PrivKeyStates, isMirror : BOOLEAN, frozenSth : BadSigSpellings]
 Groups == <<KeyGroup, WindowCore, DelayGroup, RejectGroup, EkuGroup, StorageGroup, IdentGroup>>
 
 \* The case set: every pair of field groups in full product with the rest as in a base, and some triples.
@@ -46,6 +48,7 @@ Triple(b, G1, G2, G3) == \E x \in G1, y \in G2, z \in G3 : c = Override(b, x @@ 
 IsSingleCase ==
   \/ \E b \in Bases, p \in GroupPairs : \E x \in Groups[p[1]], y \in Groups[p[2]] : c = Override(b, x @@ y)
   \/ \E b \in Bases, x \in WindowGroup : c = Override(b, x)                                      \* WindowSweep
+  \/ \E b \in Bases, x \in FrozenSweepGroup : c = Override(b, x)                                 \* FrozenSweep
   \/ Triple(Base, KeyGroup, WindowSlim, DelayGroup)
   \/ Triple(Base, KeyGroup, StorageGroup, RejectEku)
   \/ Triple(Base, KeyGroup, StorageGroup, IdentGroup)
@@ -55,7 +58,7 @@ IsSingleCase ==
   \/ Triple(RichBase, WindowSlim, DelayGroup, StorageGroup)
 
 AllFields == DOMAIN Base
-TypeOKSingle == DOMAIN c = AllFields
+TypeOKSingle == DOMAIN c = AllFields /\ c.frozenSth \in FrozenFine
 
 \* the decision structure of ValidateLogConfig, one branch per return statement (cross-check of Valid,
 \* which is written from the property text, against config.go; "mysql" is the input on which the code
@@ -76,7 +79,7 @@ CodeAccepts(x) ==
   ELSE IF x.limit.p /\ ~CheckValid(x.limit) THEN FALSE
   ELSE IF x.start.p /\ x.limit.p /\ Instant(x.limit) < Instant(x.start) THEN FALSE   \* time.Time.Before on the converted instants
   ELSE IF x.mmd < 0 \/ x.expected < 0 \/ x.expected > x.mmd THEN FALSE
-  ELSE IF x.frozenSth \in {"badSig", "badHashLen"} THEN FALSE
+  ELSE IF x.frozenSth \notin {"absent", "okSigned"} THEN FALSE     \* ToSignedTreeHead / VerifySTHSignature, on every call
   ELSE IF x.backend = "ctfe" THEN
          IF x.connStr = "" THEN FALSE
          ELSE IF x.connStr \in {"mysql://ok", "postgres://ok"} THEN TRUE
@@ -105,7 +108,7 @@ Draw == /\ c = None
         /\ c' = [logId |-> RandomElement({0, 1}), prefix |-> RandomElement(PrefixStates),
                  isReadonly |-> RandomElement(BOOLEAN),
                  pubKey |-> RandomElement(PubKeyStates), privKey |-> RandomElement(PrivKeyStates),
-                 isMirror |-> RandomElement(BOOLEAN), frozenSth |-> RandomElement(FrozenStates),
+                 isMirror |-> RandomElement(BOOLEAN), frozenSth |-> RandomElement(FrozenFine),
                  start |-> RandomElement(TsStates), limit |-> RandomElement(TsStates),
                  mmd |-> RandomElement(DelayStates), expected |-> RandomElement(DelayStates),
                  rejectExpired |-> RandomElement(BOOLEAN), rejectUnexpired |-> RandomElement(BOOLEAN),
